@@ -12,7 +12,8 @@ Inductive lane :=
  | LNeg (i : nat)                 (* -x_i (exact) *)
  | LAdd (i j : nat) | LSub (i j : nat)
  | LMulLit (i : nat) (b : Z)      (* x_i * constant *)
- | LDivLit (i : nat) (b : Z).     (* x_i / constant *)
+ | LDivLit (i : nat) (b : Z)      (* x_i / constant *)
+ | LMax (i j : nat).              (* f64::max(x_i, x_j) *)
 
 Definition m1_bits : Z := 13830554455654793216.   (* -1.0 *)
 
@@ -29,6 +30,7 @@ Definition lane_ok (sp : lane) (e : expr) : bool :=
   | LMulLit i c, Mul (Var a) (Lit d) => Nat.eqb a i && Z.eqb c d
   | LMulLit i c, Mul (Lit d) (Var a) => Nat.eqb a i && Z.eqb c d
   | LDivLit i c, Div (Var a) (Lit d) => Nat.eqb a i && Z.eqb c d
+  | LMax i j, Max (Var a) (Var b) => Nat.eqb a i && Nat.eqb b j
   | _, _ => false
   end.
 
@@ -43,6 +45,7 @@ Definition lane_sem (env : list F) (sp : lane) : F :=
   | LSub i j => fsub (x i) (x j)
   | LMulLit i b => fmul (x i) (of_bits b)
   | LDivLit i b => fdiv (x i) (of_bits b)
+  | LMax i j => fmax (x i) (x j)
   end.
 
 Ltac eqb_true :=
@@ -58,7 +61,7 @@ Proof.
   destruct sp; destruct e; cbn [lane_ok]; try discriminate;
     repeat match goal with
     | |- context [match ?x with _ => _ end] => destruct x; try discriminate
-    end; intros H; eqb_true; cbn [eval FOps0 FOps o_lit o_add o_sub o_mul o_div o_neg o_default lane_sem];
+    end; intros H; eqb_true; cbn [eval FOps0 FOps FOpsG o_lit o_add o_sub o_mul o_div o_neg o_max o_default lane_sem];
     try reflexivity; try apply fmul_comm; try apply fadd_comm;
     try (fold f_m1; apply fmul_m1);
     try (change (of_bits m1_bits) with f_m1; rewrite fmul_comm; apply fmul_m1).
@@ -86,6 +89,7 @@ Definition shift_lane (sp : lane) : lane :=
   match sp with
   | LVar i => LVar (S i) | LLit b => LLit b | LMul i j => LMul (S i) (S j) | LNeg i => LNeg (S i)
   | LAdd i j => LAdd (S i) (S j) | LSub i j => LSub (S i) (S j) | LMulLit i b => LMulLit (S i) b | LDivLit i b => LDivLit (S i) b
+  | LMax i j => LMax (S i) (S j)
   end.
 Definition spec_segment (sps : list lane) : list lane := LVar 0 :: map shift_lane sps.
 
